@@ -27,6 +27,9 @@ Init ==
             /\ (WProcess(c).part # "relative" /\ WWrite(c) # "relative") => (offpar = 0 /\ addrpar = 0 /\ ~sibling)
             /\ ~c.relr => (offpar = 0 /\ addrpar = 0 /\ ~sibling)
             /\ c.ref \in CodeRefs => (offpar = 0 /\ addrpar = 0)
+            \* the writer's RELR table belongs to a GROUP of input files; the libc-based static PIE the
+            \* replay builds always has other RELR reservations (crt / libc objects) in the group
+            /\ (c.out = "staticpie" /\ c.relr) => sibling
             /\ fl = NoFlags
        ELSE /\ c \in {[AnyCase EXCEPT !.out = o, !.relr = r] : o \in Outs, r \in BOOLEAN}
             /\ offpar = 0 /\ addrpar = 0 /\ sibling = FALSE
